@@ -1,4 +1,6 @@
 import Cuke.Lemmas.NormalizeInsert
+import Cuke.Lemmas.NormalizeOrder
+import Cuke.Model.Monitors
 /-!
 # C11 — Normalize reorders any contract-abiding stream losslessly into sequential order
 Model: `Cuke.Norm.handle`, `Cuke.normRun` (Cuke/Model/Normalize.lean).
@@ -250,6 +252,143 @@ theorem norm_finished_last (n n' : Norm) (out : List Ev) (hfin : n.fin = .no)
 theorem norm_passthrough_after_finished (n : Norm) (e : Ev) (h : n.fin = .emitted) :
     n.handle e = some (n, [e]) := by simp [Norm.handle, h]
 
+/-! ## T3 — each attempt's events keep their original relative order -/
+
+theorem proj_queued (κ : AKey) (e : Ev) : proj κ (queued e) = proj κ [e] := by
+  unfold queued
+  split
+  · rename_i h
+    have : evKey? e = none := by
+      cases e <;> simp_all [Ev.isRunLevel, evKey?]
+    simp [proj_nonscen κ e this]
+  · rfl
+
+theorem proj_direct (κ : AKey) (e : Ev) : proj κ (if e.isRunLevel then [e] else []) = [] := by
+  split
+  · rename_i h
+    have : evKey? e = none := by cases e <;> simp_all [Ev.isRunLevel, evKey?]
+    exact proj_nonscen κ e this
+  · rfl
+
+/-- **Step (order)**: for every attempt key κ, what one `handle_event` forwards under κ followed by what is
+    still owed under κ is exactly what was owed under κ before followed by the event received — as LISTS
+    (order included), not just as multisets. Distinctness of the queue keys is an invariant. -/
+theorem handle_proj (n n' : Norm) (e : Ev) (out : List Ev) (hd : NormD n) (hok : NormOk n) (hfin : n.fin ≠ .pending)
+    (hemp : n.fin = .emitted → buffered n = [])
+    (hs : safeStep n e = true) (h : n.handle e = some (n', out)) (κ : AKey) :
+    proj κ (out ++ buffered n') = proj κ (buffered n ++ [e]) ∧ NormD n' := by
+  unfold Norm.handle at h
+  by_cases hem : n.fin = .emitted
+  · simp only [hem, beq_self_eq_true, if_true, Option.some.injEq, Prod.mk.injEq] at h
+    obtain ⟨rfl, rfl⟩ := h
+    rw [hemp hem]
+    exact ⟨by simp, hd⟩
+  · have hem' : (n.fin == Fin.emitted) = false := by simpa using hem
+    have hno : n.fin = .no := by cases hn : n.fin <;> simp_all
+    simp only [hem', Bool.false_eq_true, if_false] at h
+    simp only [safeStep, hem', Bool.false_or, Bool.and_eq_true] at hs
+    cases hi : n.insert e with
+    | none => simp [hi] at h
+    | some n1 =>
+      simp only [hi] at h
+      obtain ⟨hp, hd1⟩ := insert_proj n n1 e hd hs.1 hi κ
+      obtain ⟨_, hok1, _⟩ := insert_perm n n1 e hok hs.1 hi
+      obtain ⟨heq, _⟩ := emitFeats_eq n1.feats hok1
+      have hd2 := emitFeats_D n1.feats hd1
+      have hcore : proj κ (emitFeats n1.feats).1 ++ proj κ (bufFeats (emitFeats n1.feats).2) =
+          proj κ (bufFeats n.feats) ++ proj κ [e] := by
+        rw [← proj_append, heq, hp, proj_queued]
+      have hfinished : proj κ [Ev.finished] = [] := proj_nonscen κ _ rfl
+      split at h
+      · simp only [Option.some.injEq, Prod.mk.injEq] at h
+        obtain ⟨rfl, rfl⟩ := h
+        refine ⟨?_, hd2⟩
+        simp only [buffered, hno, show (Fin.no == Fin.pending) = false from rfl,
+          show (Fin.emitted == Fin.pending) = false from rfl, Bool.false_eq_true, if_false, append_nil,
+          proj_append, proj_direct, hfinished, nil_append]
+        exact hcore
+      · rename_i hnp
+        simp only [Option.some.injEq, Prod.mk.injEq] at h
+        obtain ⟨rfl, rfl⟩ := h
+        refine ⟨?_, hd2⟩
+        have hnp' : (n1.fin == Fin.pending) = false := by simpa using hnp
+        simp only [buffered, hno, show (Fin.no == Fin.pending) = false from rfl, hnp', Bool.false_eq_true, if_false,
+          append_nil, proj_append, proj_direct, nil_append]
+        exact hcore
+
+/-- along a contract-abiding run, for every attempt key: forwarded ++ still owed = received, in order -/
+theorem norm_T3_from (n : Norm) (evs : List Ev) (hd : NormD n) (hok : NormOk n) (hfin : n.fin ≠ .pending)
+    (hemp : n.fin = .emitted → buffered n = [])
+    (hs : SafeRun n evs = true) (κ : AKey) :
+    ∃ n' outs, normRun n evs = some (n', outs) ∧ proj κ (outs.flatten ++ buffered n') = proj κ (buffered n ++ evs) := by
+  induction evs generalizing n with
+  | nil => exact ⟨n, [], rfl, by simp⟩
+  | cons e es ih =>
+    simp only [SafeRun, Bool.and_eq_true] at hs
+    cases hh : n.handle e with
+    | none => simp [hh] at hs
+    | some r =>
+      obtain ⟨n1, out⟩ := r
+      simp only [hh] at hs
+      obtain ⟨_, hok1, hfin1, hA, hB, hC⟩ := handle_step n n1 e out hok hfin hs.1 hh
+      obtain ⟨hp, hd1⟩ := handle_proj n n1 e out hd hok hfin hemp hs.1 hh κ
+      have hemp1 : n1.fin = .emitted → buffered n1 = [] := by
+        intro h1
+        by_cases hem : n.fin = .emitted
+        · obtain ⟨rfl, _⟩ := hB hem; exact hemp hem
+        · by_cases hf : e = .finished
+          · exact (hA hf hem).1
+          · exact absurd h1 (hC hem hf)
+      obtain ⟨n', outs, hrun, hperm⟩ := ih n1 hd1 hok1 hfin1 hemp1 hs.2
+      refine ⟨n', out :: outs, by simp [normRun, hh, hrun], ?_⟩
+      simp only [flatten_cons, proj_append] at hperm hp ⊢
+      rw [append_assoc, hperm, ← append_assoc, hp]
+      rw [show e :: es = [e] ++ es from rfl, proj_append]
+      simp [append_assoc]
+
+/-- **T3 over a whole run.** For a contract-abiding stream `pre ++ [Finished]` and every attempt
+    (scenario, retry counter): the events of that attempt are forwarded in exactly their original
+    relative order — `projAtt κ output = projAtt κ input`. -/
+theorem norm_T3_order (pre : List Ev) (hs : SafeRun Norm.init (pre ++ [Ev.finished]) = true) (κ : AKey) :
+    ∃ n outs, normRun Norm.init (pre ++ [Ev.finished]) = some (n, outs) ∧
+      proj κ outs.flatten = proj κ (pre ++ [Ev.finished]) := by
+  obtain ⟨n, outs, hrun, _, hfin⟩ := norm_T1_complete pre hs
+  obtain ⟨n', outs', hrun', hp⟩ := norm_T3_from Norm.init (pre ++ [Ev.finished]) (by simp [NormD, featsD, Norm.init])
+    (by simp [NormOk, Norm.init]) (by simp [Norm.init]) (by simp [Norm.init]) hs κ
+  rw [hrun] at hrun'
+  simp only [Option.some.injEq, Prod.mk.injEq] at hrun'
+  obtain ⟨rfl, rfl⟩ := hrun'
+  refine ⟨n, outs, hrun, ?_⟩
+  -- everything was flushed: nothing is owed at the end
+  obtain ⟨hs1, hs2⟩ := safeRun_append Norm.init pre [Ev.finished] hs
+  have hbuf : buffered n = [] := by
+    obtain ⟨n1, outs1, hr1, _, hok1, hfin1, hemp1⟩ :=
+      norm_T1_perm_from Norm.init pre (by simp [NormOk, Norm.init]) (by simp [Norm.init]) (by simp [Norm.init]) hs1
+    have hs3 := hs2 n1 outs1 hr1
+    simp only [SafeRun, Bool.and_eq_true] at hs3
+    cases hh : n1.handle Ev.finished with
+    | none => simp [hh] at hs3
+    | some r =>
+      obtain ⟨n2, out⟩ := r
+      obtain ⟨_, _, _, hA, hB, _⟩ := handle_step n1 n2 Ev.finished out hok1 hfin1 hs3.1 hh
+      have hrun2 : normRun Norm.init (pre ++ [Ev.finished]) = some (n2, outs1 ++ [out]) := by
+        rw [normRun_append, hr1]; simp [normRun, hh]
+      rw [hrun] at hrun2
+      simp only [Option.some.injEq, Prod.mk.injEq] at hrun2
+      obtain ⟨rfl, _⟩ := hrun2
+      by_cases hem : n1.fin = .emitted
+      · obtain ⟨rfl, _⟩ := hB hem; exact hemp1 hem
+      · exact (hA rfl hem).1
+  rw [hbuf, append_nil] at hp
+  simpa [buffered, Norm.init, bufFeats] using hp
+
+/-- the projection used here is the one the monitor `mon.c11` evaluates on real output -/
+theorem proj_eq_monitor (κ : AKey) (l : List Ev) : proj κ l = Cuke.Mon.projAtt κ l := by
+  unfold proj Cuke.Mon.projAtt
+  congr 1
+  funext e
+  cases e <;> simp [evKey?]
+
 /-! ## The whole run -/
 
 /-- run-Finished has not been seen: the queue is still open -/
@@ -325,5 +464,10 @@ example : (normRun Norm.init exStream).map (fun r => r.2.flatten) =
     some [.started, .featStarted 1, .scen ka none .started, .scen ka none .finished, .featFinished 1,
           .featStarted 2, .ruleStarted 2 5, .scen kb none .started, .scen kb none .finished, .ruleFinished 2 5,
           .featFinished 2, .finished] := by decide +kernel
+
+/-- T3 on the interleaved example: attempt `ka`'s events come out in their original order although
+    `kb`'s were received in between -/
+example : (normRun Norm.init exStream).map (fun r => proj (ka, none) r.2.flatten) =
+    some (proj (ka, none) exStream) ∧ (proj (ka, none) exStream).length = 2 := by decide +kernel
 
 end Cuke.C11
